@@ -14,6 +14,16 @@ func runDo(cfg obs.Cfg, o *obs.Obs) {
 	if cfg.Rv {
 		b = make(chan int)
 	}
+	// ring: unbuffered channels 0#0..0#(n-1); f0 sends on ring[0] then waits for f(n-1) on ring[n-1];
+	// f_i waits for f(i-1) on ring[i-1] then sends on ring[i]: a token goes round once, so every
+	// function waits for its predecessor and f0 for the LAST one.
+	var ring []chan int
+	if cfg.Ring {
+		ring = make([]chan int, n)
+		for i := range ring {
+			ring[i] = make(chan int)
+		}
+	}
 	fn := func(i int) func() (int, error) {
 		return func() (int, error) {
 			o.Start(i)
@@ -24,6 +34,15 @@ func runDo(cfg obs.Cfg, o *obs.Obs) {
 					}
 				} else {
 					b <- i
+				}
+			}
+			if cfg.Ring {
+				if i == 0 {
+					ring[0] <- 0
+					<-ring[n-1]
+				} else {
+					<-ring[i-1]
+					ring[i] <- i
 				}
 			}
 			obs.Yield()
